@@ -407,3 +407,29 @@ Example mem_panic_ex :
              = Ok (st, [Panic; Ret [VInt 1]; Panic; Ret [VInt 1]])
      /\ f_calls st = [[VInt 0]; [VInt 1]; [VInt 0]].
 Proof. eexists. split; vm_compute; reflexivity. Qed.
+
+(* hardening round 5 (seeded change C18-m13): [][]byte — the element type is compared by an inline
+   expression that derived Equal negates.  {"Aa"} and {"BB"} have the same derived hash (one bucket of the
+   EMITTED table, no constant-hash copy needed) and are not Equal: two entries in that bucket, two
+   evaluations, every answer f's. *)
+Definition t_bytess : ty := TSl (TSl (TB (KInt 8 false))).
+Definition bytes1 (l l' : N) (zs : list Z) : val := VSl l [VSl l' (map VInt zs) []] [].
+Definition ex_w (a : list val) : outcome (list val) :=      (* the first byte of the first element *)
+  match a with
+  | [VSl _ [VSl _ (VInt x :: _) _] _] => Ret [VInt x]
+  | _ => Ret [VInt 0]
+  end.
+Definition ex_hb : list (list val) :=
+  [[bytes1 1 2 [65; 97]]; [bytes1 3 4 [66; 66]]; [bytes1 5 6 [65; 97]]; [bytes1 7 8 [66; 66]]].
+Example mem_nested_bytes_collision_ex :
+  form_of [t_bytess] = FBuck /\ typed_history [t_bytess] ex_hb
+  /\ hashm [] t_bytess (bytes1 1 2 [65; 97]) = hashm [] t_bytess (bytes1 3 4 [66; 66])
+  /\ args_equal [t_bytess] [bytes1 1 2 [65; 97]] [bytes1 3 4 [66; 66]] = false
+  /\ exists st, mem_run [t_bytess] ex_w ex_hb = Ok (st, map ex_w ex_hb)
+       /\ f_calls st = [[bytes1 1 2 [65; 97]]; [bytes1 3 4 [66; 66]]]
+       /\ match tbl st with TBuck [(_, vs)] => List.length vs = 2%nat | _ => False end.
+Proof.
+  split; [reflexivity|]. split; [repeat constructor|]. split; [vm_compute; reflexivity|].
+  split; [vm_compute; reflexivity|].
+  eexists. split; [vm_compute; reflexivity|]. split; vm_compute; reflexivity.
+Qed.
